@@ -251,7 +251,8 @@ CLAIMED["C09"] = dict(
          "consumed. Inputs: numerals at every boundary (0, powers of ten, 16^n +-1, most negative), an invalid byte at every position, empty input, missing "
          "terminators, leading zeros and signs.",
     note="Trusted: StlSem.tla (IO part) as transcription of the documentation. After a step's input the device serves zero bits (a real end of input ends the "
-         "whole run). The pointer-based buffer helpers of hex/strings.fj are judged with the pointer macros (C08). Values and inputs are seeded samples with boundary bias.",
+         "whole run). The byte-buffer helpers of hex/strings.fj (input_ptr_line, print_ptr_text, print_ptr_line, fill_bytes, copy_bytes) run on the pointer arena of C08 "
+         "(pointer = cell index, buffer = bytes) inside this check too. Values and inputs are seeded samples with boundary bias.",
     ref="DESIGN.md section 2 (C04-C09)",
     technique="TLA+ per-macro IO semantics evaluated by TLC as oracle for arena behaviours with scripted input and captured output")
 
